@@ -158,13 +158,14 @@ var properties = map[string]*propDef{
 		Assumptions: []string{
 			"model: per region, controller = max authority, ties to the earliest successful open; a transfer is reported iff the controller or the controller's authority changes; shared mode authorises every gate whose authority is >= the controller's",
 			"a gate bridging two existing regions, SetAuthority on a released gate and the error kind of a duplicate subject are outside the statement (skipped / accepted as implemented)",
+			"c05-open (in the cesium-stream unit): sequential scripts of DB.OpenWriter over several channels of index groups and virtual channels (one authority or one per channel, with and without ErrOnUnauthorized), SetAuthority, Close and writes to virtual channels by several subjects; after every operation DB.ControlStates() must name the model's holder of every channel (unary: exclusive control, ties to the earlier opener; virtual: shared control), a refused open leaves no trace, a write is authorised exactly when the model says so",
 			"the write-path part of the property (only authorised writes persisted and relayed, refused writes leave no trace) is decided through real cesium writers by the cesium-stream unit (C20's engine, run here as well): writers that lose control to an interloper mid-stream and regain it, virtual channels under shared control with authority changes, and a probe write right after the last authorised sample",
 		},
-		RequiredProbes: []string{"transfers_checked", "equal_authority_contenders", "double_release", "history_ops_checked", "yield_lock"},
+		RequiredProbes: []string{"transfers_checked", "equal_authority_contenders", "double_release", "history_ops_checked", "yield_lock", "open_refused_unauthorized", "open_refused_after_a_virtual_channel_was_won", "open_with_per_channel_authorities", "write_not_in_control"},
 		Units: []unit{{
-			Name: "cesium-control", Module: "cesium", Package: "./internal/control", Passes: allPasses,
+			Name: "cesium-control", Module: "cesium", Package: "./internal/control", Passes: allPasses, Engines: []string{"c05-seq", "c05-conc"},
 			QuickBudget: 20 * time.Second, QuickWorkers: 8, ThoroughBudget: 10 * time.Minute, ThoroughWorkers: 16,
-		}, cesiumUnit("cesium-stream", "c20")},
+		}, cesiumUnit("cesium-stream", "c20", "c05-open")},
 	},
 	"C20": {
 		Level: "exploration",
